@@ -572,12 +572,26 @@ async fn copy_to_qcow2<T: Qcow2IoOps>(
     off: u64,
     bytes: usize,
 ) -> Qcow2Result<usize> {
-    let mut buf = Qcow2IoBuf::<u8>::new(bytes);
+    // the raw file needn't be a multiple of the block size: pad the last
+    // chunk with zeros (the image itself is padded to the cluster size)
+    let bs = dev.info.block_size();
+    let mut buf = Qcow2IoBuf::<u8>::new((bytes + bs - 1) & !(bs - 1));
+    buf.zero_buf();
 
     src.seek(SeekFrom::Start(off))?;
-    let res = src.read(&mut buf)?;
+    let mut res = 0;
+    while res < bytes {
+        let n = src.read(&mut buf[res..bytes])?;
+        if n == 0 {
+            break;
+        }
+        res += n;
+    }
 
-    dev.write_at(&buf[0..res], off).await?;
+    let len = (res + bs - 1) & !(bs - 1);
+    if len > 0 {
+        dev.write_at(&buf[0..len], off).await?;
+    }
     Ok(res)
 }
 
